@@ -107,6 +107,36 @@ pub fn make_pool(family: &str, dim: usize, seed: u64, n: usize) -> Vec<Vec<f64>>
             // the textbook configuration on which the visibility walk cycles once the long
             // diagonals have been flipped in: an outer simplex, a smaller twisted copy inside it
             // (first 2(D+1) pool points, always part of the initial vertex set), then filler
+            "pinwheel" if dim == 2 && Rng::sub(seed, "pinwheel-variant", 0).chance(1, 2) => {
+                // a six-point configuration on which this library's first-outside-facet walk is
+                // known to go round in a circle once two diagonals are flipped, under a random
+                // affine map (orientation tests, hence the walk, are affine invariant; which
+                // triangulation is Delaunay is not, so the flips needed differ from run to run)
+                let k = out.len();
+                let base: [(f64, f64); 6] = [(0.0, 6.0), (12.0, 12.0), (12.0, 0.0), (11.0, 4.0), (4.0, 5.0), (11.0, 1.0)];
+                let mut ar = Rng::sub(seed, "pinwheel-affine", 0);
+                let (mut a, mut b, mut c, mut d2): (f64, f64, f64, f64) = (1.0, 0.0, 0.0, 1.0);
+                for _ in 0..8 {
+                    a = *ar.pick(&[1.0, 1.0, 2.0, -1.0]);
+                    b = *ar.pick(&[0.0, 0.0, 1.0, -1.0, 0.5]);
+                    c = *ar.pick(&[0.0, 0.0, 1.0, -1.0, 0.5]);
+                    d2 = *ar.pick(&[1.0, 1.0, 2.0, -1.0]);
+                    if (a * d2 - b * c).abs() >= 0.5 {
+                        break;
+                    }
+                    a = 1.0;
+                    b = 0.0;
+                    c = 0.0;
+                    d2 = 1.0;
+                }
+                let (tx, ty) = (ar.range_i64(-8, 8) as f64, ar.range_i64(-8, 8) as f64);
+                if k < 6 {
+                    let (x, y) = base[k];
+                    vec![a * x + b * y + tx, c * x + d2 * y + ty]
+                } else {
+                    (0..dim).map(|_| rng.range_i64(-40, 200) as f64 / 8.0).collect()
+                }
+            }
             "pinwheel" => {
                 let k = out.len();
                 let outer = |i: usize, r: &mut Rng| -> Vec<f64> {
@@ -133,7 +163,10 @@ pub fn make_pool(family: &str, dim: usize, seed: u64, n: usize) -> Vec<Vec<f64>>
                     let cen: Vec<f64> = (0..dim).map(|a| os.iter().map(|o| o[a]).sum::<f64>() / (dim as f64 + 1.0)).collect();
                     let a = &os[i];
                     let b = &os[(i + 1) % (dim + 1)];
-                    let (wa, wb) = *rng.pick(&[(0.40, 0.25), (0.35, 0.20), (0.45, 0.30), (0.30, 0.30)]);
+                    // twist strengths from mild to strong (each inner vertex is pulled from the
+                    // centroid towards "its" outer vertex by wa and towards the next one by wb)
+                    let wa = *rng.pick(&[0.15, 0.3, 0.45, 0.6, 0.75, 0.85]);
+                    let wb = *rng.pick(&[0.1, 0.25, 0.4, 0.55, 0.7]) * (1.0 - wa);
                     (0..dim).map(|x| ((cen[x] + wa * (a[x] - cen[x]) + wb * (b[x] - cen[x])) * 8.0).round() / 8.0).collect()
                 } else {
                     (0..dim).map(|_| rng.range_i64(-40, 200) as f64 / 8.0).collect()
@@ -269,6 +302,74 @@ pub struct Gen {
     pub embedded_k2_permille: u64,
 }
 
+/// Interior facets whose k=2 flip keeps the complex embedded: the opposite apex b lies on the same
+/// strict side as f_j of the hyperplane through a and the other facet vertices, for every j (the
+/// segment ab crosses the interior of the facet). Decided exactly; undecidable ones are left out.
+pub fn embedded_k2_candidates(snap: &Snap, d: usize) -> Vec<(u64, u8)> {
+    let coords = snap.key_to_coords();
+    let mut cands: Vec<(u64, u8)> = Vec::new();
+    for c in &snap.cells {
+        let Some(nb) = &c.nbrs else { continue };
+        for (fi, n) in nb.iter().enumerate() {
+            let Some(nk) = n else { continue };
+            if *nk < c.key {
+                continue;
+            }
+            let Some(other) = snap.cells.iter().find(|x| x.key == *nk) else { continue };
+            let a = c.verts[fi];
+            let Some(b) = other.verts.iter().copied().find(|v| !c.verts.contains(v)) else { continue };
+            let facet: Vec<u64> = c.verts.iter().copied().filter(|v| *v != a).collect();
+            if facet.len() != d {
+                continue;
+            }
+            // replacement cells: {a, b} + facet minus one vertex, in a fixed slot order
+            let mut signs: Vec<crate::exact::Sign> = Vec::new();
+            let mut ok = true;
+            for j in 0..d {
+                let mut pts: Vec<&[f64]> = Vec::with_capacity(d + 1);
+                for (i, f) in facet.iter().enumerate() {
+                    let key = if i == j { b } else { *f };
+                    match coords.get(&key) {
+                        Some(p) => pts.push(&p[..]),
+                        None => ok = false,
+                    }
+                }
+                match coords.get(&a) {
+                    Some(p) => pts.push(&p[..]),
+                    None => ok = false,
+                }
+                if !ok {
+                    break;
+                }
+                signs.push(crate::exact::orient(&pts));
+            }
+            if !ok || signs.is_empty() {
+                continue;
+            }
+            // b lies on the same strict side as f_j of the hyperplane through a and the other
+            // facet vertices, for every j: the segment ab crosses the interior of the facet
+            let mut refpts: Vec<&[f64]> = Vec::with_capacity(d + 1);
+            for f in &facet {
+                if let Some(p) = coords.get(f) {
+                    refpts.push(&p[..]);
+                }
+            }
+            if let Some(p) = coords.get(&a) {
+                refpts.push(&p[..]);
+            }
+            if refpts.len() != d + 1 {
+                continue;
+            }
+            let reference = crate::exact::orient(&refpts);
+            let first = reference.sign;
+            if first != 0 && reference.decidable && signs.iter().all(|s| s.decidable && s.sign == first) {
+                cands.push((c.key, fi as u8));
+            }
+        }
+    }
+    cands
+}
+
 fn present(snap: &Snap, p: &[f64]) -> bool {
     snap.verts.iter().any(|v| crate::snap::coords_bits_eq(&v.coords, p))
 }
@@ -328,78 +429,17 @@ impl Gen {
     }
 
     /// A combinatorially plausible Edit-API move of the given generator slot, if any.
-    /// A k=2 flip across an interior facet whose two apexes lie strictly on opposite sides of every
-    /// hyperplane spanned by the segment's ... in short: all D replacement cells keep one strict
-    /// orientation sign, so the flipped complex is still embedded (decided exactly).
+    /// A k=2 flip across an interior facet whose flip keeps the complex embedded (see
+    /// `embedded_k2_candidates`).
     fn embedded_k2(&self, rng: &mut Rng, snap: &Snap, obj: usize) -> Option<Op> {
-        let d = self.dim;
-        let coords = snap.key_to_coords();
-        let k2u = snap.key_to_uuid();
-        let mut cands: Vec<(usize, u8)> = Vec::new();
-        for (ci, c) in snap.cells.iter().enumerate() {
-            let Some(nb) = &c.nbrs else { continue };
-            for (fi, n) in nb.iter().enumerate() {
-                let Some(nk) = n else { continue };
-                if *nk < c.key {
-                    continue;
-                }
-                let Some(other) = snap.cells.iter().find(|x| x.key == *nk) else { continue };
-                let a = c.verts[fi];
-                let Some(b) = other.verts.iter().copied().find(|v| !c.verts.contains(v)) else { continue };
-                let facet: Vec<u64> = c.verts.iter().copied().filter(|v| *v != a).collect();
-                if facet.len() != d {
-                    continue;
-                }
-                // replacement cells: {a, b} + facet minus one vertex, in a fixed slot order
-                let mut signs: Vec<crate::exact::Sign> = Vec::new();
-                let mut ok = true;
-                for j in 0..d {
-                    let mut pts: Vec<&[f64]> = Vec::with_capacity(d + 1);
-                    for (i, f) in facet.iter().enumerate() {
-                        let key = if i == j { b } else { *f };
-                        match coords.get(&key) {
-                            Some(p) => pts.push(&p[..]),
-                            None => ok = false,
-                        }
-                    }
-                    match coords.get(&a) {
-                        Some(p) => pts.push(&p[..]),
-                        None => ok = false,
-                    }
-                    if !ok {
-                        break;
-                    }
-                    signs.push(crate::exact::orient(&pts));
-                }
-                if !ok || signs.is_empty() {
-                    continue;
-                }
-                // b lies on the same strict side as f_j of the hyperplane through a and the other
-                // facet vertices, for every j: the segment ab crosses the interior of the facet
-                let mut refpts: Vec<&[f64]> = Vec::with_capacity(d + 1);
-                for f in &facet {
-                    if let Some(p) = coords.get(f) {
-                        refpts.push(&p[..]);
-                    }
-                }
-                if let Some(p) = coords.get(&a) {
-                    refpts.push(&p[..]);
-                }
-                if refpts.len() != d + 1 {
-                    continue;
-                }
-                let reference = crate::exact::orient(&refpts);
-                let first = reference.sign;
-                if first != 0 && reference.decidable && signs.iter().all(|s| s.decidable && s.sign == first) {
-                    cands.push((ci, fi as u8));
-                }
-            }
-        }
+        let cands = embedded_k2_candidates(snap, self.dim);
         if cands.is_empty() {
             return None;
         }
-        let (ci, fi) = *rng.pick(&cands);
-        let us: Option<Vec<Hex128>> = snap.cells[ci].verts.iter().map(|k| k2u.get(k).map(|u| Hex128(*u))).collect();
+        let (ck, fi) = *rng.pick(&cands);
+        let k2u = snap.key_to_uuid();
+        let cell = snap.cells.iter().find(|c| c.key == ck)?;
+        let us: Option<Vec<Hex128>> = cell.verts.iter().map(|k| k2u.get(k).map(|u| Hex128(*u))).collect();
         Some(Op::FlipK2 { obj, cell: CRef::Verts(us?), facet: fi })
     }
 
